@@ -140,6 +140,7 @@ fn real_main() -> i32 {
         "q2seq" => families::q2seq(&a),
         "first" => families::first(&a),
         "resume" => families::resume(&a),
+        "reconn" => families::reconn(&a),
         "chunk" => families::chunk(&a),
         "fuzz" => families::fuzz(&a),
         "endings" => families::endings(&a),
